@@ -1605,6 +1605,41 @@ def catalogue():
     return cases
 
 
+# ----------------------------------------------------------------------------- value of an op-assignment through a place
+def opassign_value_catalogue():
+    """`r = place op= v`: the expression yields the NEW content of the place (and the place holds it), for a list
+    element, a map entry, an object field and a list held in a field; also when the value is returned from a
+    function / method or passed on as an argument.  Non-commutative operators and strings on purpose."""
+    cases = []
+
+    def add(name, lines, expects):
+        g = Gen()
+        g.raw("opassign.value", lines, expects)
+        c = package(g, "opassign_value:" + name, "catalogue")
+        c["type"] = "int"
+        cases.append(c)
+    add("list_element", ["ov1: [int...] = [10, 20]", "ovr = ov1[0] -= 3", "print ovr", "print ov1", "ovs = ov1[1] /= 3",
+                         "print ovs", "print ov1"], ["7", "[7, 20]", "6", "[7, 6]"])
+    add("list_element_by_variable", ["ov1: [int...] = [10, 20]", "ovi = 1", "ovr = ov1[ovi] %= 7", "print ovr", "print ov1"],
+        ["6", "[10, 6]"])
+    add("str_list_element", ['ov1: [str...] = ["ab", "c"]', 'ovr = ov1[0] += "!"', "print ovr", "print ov1"], ["ab!", '["ab!", "c"]'])
+    add("map_entry", ['ov1 = map[str, int] { "a": 10 }', 'ovr = ov1["a"] -= 4', "print ovr", 'print (ov1["a"]) or 0'], ["6", "6"])
+    kcls = ["class Ovk {", "  f: int", "  s: str", "  l: [int...]", "  constructor(self) {", "    self.f = 100", '    self.s = "ab"',
+            "    self.l = [10, 20]", "  }", "  fn take(self, n: int) -> int {", "    return self.f -= n", "  }",
+            "  fn tag(self, t: str) -> str {", "    return self.s += t", "  }", "}", "ovo = Ovk()"]
+    add("object_field", kcls + ["ovr = ovo.f -= 30", "print ovr", "print ovo.f", "ovq = ovo.f *= 2", "print ovq", "print ovo.f"],
+        ["70", "70", "140", "140"])
+    add("object_field_returned_from_method", kcls + ["print ovo.take(30)", "print ovo.f", "print ovo.take(5)", "print ovo.f",
+                                                     'print ovo.tag("!")', "print ovo.s"], ["70", "70", "65", "65", "ab!", "ab!"])
+    add("object_field_through_alias", kcls + ["ova = ovo", "ovr = ova.f /= 3", "print ovr", "print ovo.f"], ["33", "33"])
+    add("list_in_field", kcls + ["ovr = (ovo.l)[1] -= 5", "print ovr", "print ovo.l"], ["15", "[10, 15]"])
+    add("as_argument", kcls + ["ovid = fn(a: int) -> int {", "  return a", "}", "print ovid(ovo.f -= 1)", "print ovo.f"], ["99", "99"])
+    add("bigint_and_float_fields", ["class Ovb {", "  b: bigint", "  x: float", "  constructor(self) {", "    self.b = B10", "    self.x = 1.5",
+                                    "  }", "}", "ovo = Ovb()", "ovr = ovo.b += B5", "print ovr", "print ovo.b", "ovy = ovo.x /= 2.0", "print ovy",
+                                    "print ovo.x"], ["15", "15", "0.75", "0.75"])
+    return cases
+
+
 # ----------------------------------------------------------------------------- containers built from places
 
 def places_catalogue():
@@ -1899,7 +1934,7 @@ def nontrivial(res):
 def run(ctx):
     out = core.Outcome()
     avoid = {name: any(s in ctx.known for s in sigs) for name, (sigs, _) in AVOIDANCE.items()}
-    cat = catalogue() + places_catalogue() + callback_catalogue()
+    cat = catalogue() + places_catalogue() + callback_catalogue() + opassign_value_catalogue()
     # adaptive rule: the pinned case of a defect is run first; while it deviates on this tree (it is then reported
     # under its own catalogue signature) the random generator stays away from that construct
     probe = [c for c in cat if c["id"] == "places:map_assignment_key:lookup_in_same_map"][0]
